@@ -3,6 +3,7 @@ CONSTANTS
   Val = {v1}
   Stranger = {}
   MaxReq = 1
+  Units = 1
   ExpSet = {2}
   PenaltySet = {2}
   DtSet = {1}
